@@ -396,6 +396,30 @@ pub fn c13_workloads(thorough: bool) -> Vec<(Workload, usize)> {
         w.faults = vec![Fault::Drop, Fault::Delay(3)];
         v.push((w, 1));
     }
+    // bursts of equal small messages: one transmit round emits several packets, each filled by
+    // many small chunks, so the size accounting of the SECOND and later packets of a round is
+    // exercised (the first packet alone is not enough). Chunk size c = 16 + payload rounded up to 4;
+    // the sizes make k*c land in 1189..=1200 for k = 2,3,4,5,6,10,12 (a 12-byte accounting error
+    // then crosses the limit), plus neighbours. Thorough sweeps every chunk size.
+    {
+        let sizes: Vec<usize> = if thorough { (1..=1172).step_by(4).collect() } else { vec![84, 104, 184, 224, 284, 384, 584, 80, 88, 580, 588] };
+        for (gi, group) in sizes.chunks(if thorough { 12 } else { 11 }).enumerate() {
+            let mut msgs = vec![];
+            for (i, sz) in group.iter().enumerate() {
+                let c = 16 + (sz + 3) / 4 * 4;
+                let n = (3 * 1200 / c + 3).min(48);
+                for _ in 0..n {
+                    msgs.push(m(A, 0, 0, i as u64 * 300, *sz));
+                }
+            }
+            let mut w = wl(&format!("Q-small-chunk-bursts-{gi}"), vec![ChanSpec::reliable_ordered(0)], msgs);
+            w.record_wire = true;
+            w.linger_ms = 0;
+            w.horizon_ms = 20_000;
+            w.faults = vec![Fault::Drop];
+            v.push((w, 1));
+        }
+    }
     for (burst, cwnd) in [(1usize, 0usize), (4, 8192)] {
         let mut w = wl(&format!("B-burst{burst}-cwnd{cwnd}"), vec![ChanSpec::reliable_ordered(0)], (0..10).map(|i| m(A, 0, 0, 0, 1100 + i)).collect());
         w.max_burst = Some(burst);
